@@ -15,12 +15,14 @@ import (
 // C16 — stream-table JOIN.
 //
 // modes (cfg mode):
-//   enc    — encodeKey through its accessor: ops `enc v…` (tuple), `enc1 v` (single, non-slice key); obs `k <hex>`
-//   tbl    — MemoryTableSource op sequences: `init <pid> v…` (constructor rows), `ups <pid> v…`, `del v…`, `del1 v`,
-//            `get v…`, `get1 v`; obs of get: `hit <pid>` / `miss`
-//   sql    — SELECT id, m.pid … FROM stream [s] [LEFT] JOIN meta [m] ON … [WHERE m.grp = 1] through EmitSync, interleaved
-//            with UpsertTable / Delete: `ups`, `del`, `emit <id> v…`; obs of emit: `out <id> <pid|n>` / `drop`
-//   sqlagg — … GROUP BY m.grp, CountingWindow(N) (async Emit; table ops only before the rows; sentinel barrier)
+//
+//	enc    — encodeKey through its accessor: ops `enc v…` (tuple), `enc1 v` (single, non-slice key); obs `k <hex>`
+//	tbl    — MemoryTableSource op sequences: `init <pid> v…` (constructor rows), `ups <pid> v…`, `del v…`, `del1 v`,
+//	         `get v…`, `get1 v`; obs of get: `hit <pid>` / `miss`
+//	sql    — SELECT id, m.pid … FROM stream [s] [LEFT] JOIN meta [m] ON … [WHERE m.grp = 1] through EmitSync, interleaved
+//	         with UpsertTable / Delete: `ups`, `del`, `emit <id> v…`; obs of emit: `out <id> <pid|n>` / `drop`
+//	sqlagg — … GROUP BY m.grp, CountingWindow(N) (async Emit; table ops only before the rows; sentinel barrier)
+//
 // Key component tokens: n (nil) m (missing field) i:<dec> (int) j:<dec> (int64) u:<dec> (uint) f:<dec> (float32 of an int)
 // x:<bits>:… (float64) z (float64 -0) s:<hex> b:t|f.  cfg `fmt <bits> <hex>` lines give Go's FormatFloat(f,'f',-1,64)
 // for every float64 value a number of the case converts to (number formatting is trusted Go runtime).
